@@ -175,10 +175,37 @@ def replay_one(obj, ctx, opts):
     mod, branches, exc, rz = ctx
     h, st = obj["h"], obj["st"]
     out = []
-    db = {}
+    from .hexary import FaultyDict, InjectedWriteError
+
+    db = FaultyDict()
     trie = mod.BinaryTrie(db)
+    faulted = False
     for idx, ev in enumerate(h):
         is_last = idx == len(h) - 1
+        if ev["a"] == "failwrite":
+            # the j-th database write of this call raises
+            faulted = True
+            b_db, b_root = dict(db), trie.root_hash
+            b_look = read_table(trie, st["look"], idx)
+            db.arm(ev["j"])
+            try:
+                res = step(trie, dict(ev, a=ev["op"]), idx, exc)
+            except Exception:  # noqa
+                res = "raised:harness"
+            finally:
+                db.arm(0)
+            if "InjectedWriteError" not in res:
+                out.append(("mirror", "write-failure-not-reached", {"op": ev["op"], "j": ev["j"], "res": res}))
+                if res == "ok":
+                    break           # the real trie performed the operation: the model cannot follow
+            else:
+                if trie.root_hash != b_root:
+                    out.append(("C12", "raising-call-changed-root", {"action": "failwrite", "op": ev["op"]}))
+                elif read_table(trie, st["look"], idx) != b_look:
+                    out.append(("C12", "raising-call-changed-contents", {"action": "failwrite", "op": ev["op"]}))
+                if any(db.get(k) != v for k, v in b_db.items()):
+                    out.append(("C12", "database-entry-removed-or-changed", {"action": "failwrite"}))
+            continue
         if is_last:
             before_db, before_root = dict(db), trie.root_hash
             before_look = read_table(trie, st["look"], idx)
@@ -243,7 +270,7 @@ def replay_one(obj, ctx, opts):
             out.append(("C12", "earlier-root-reads-differently", {"root": prh}))
             break
     exp_db = rz.db(st["db"])
-    if db != exp_db:
+    if dict(db) != exp_db and not (faulted and all(dict.get(db, k) == v for k, v in exp_db.items())):
         out.append(("mirror", "db-differs-from-transcription", {"missing": len([k for k in exp_db if k not in db]),
                                                                "extra": len([k for k in db if k not in exp_db])}))
     if "br" in st:
@@ -392,6 +419,8 @@ def stats(obj, ctx):
     tags = [("calls:" + k, v) for k, v in COUNTS.items()]
     COUNTS.clear()
     h, st = obj["h"], obj["st"]
+    if any(e["a"] == "failwrite" for e in h[:-1]):
+        tags.append("failed-write-in-mid-history")
     if h:
         tags.append("last:" + h[-1]["a"] + ("" if h[-1]["ok"] else "-refused"))
     if any(e["a"] == "reject" for e in h[:-1]):
